@@ -822,3 +822,14 @@ def _tolower(ex, st, args, I):
 
 BASE_STUBS['toupper'] = _toupper
 BASE_STUBS['tolower'] = _tolower
+
+
+# exception objects of the standard library: construction/destruction has no modelled effect
+DEFAULT_PREFIX_STUBS = [
+    ('_ZNSt13runtime_errorC', _nop), ('_ZNSt13runtime_errorD', _nop),
+    ('_ZNSt11logic_errorC', _nop), ('_ZNSt11logic_errorD', _nop),
+    ('_ZNSt9exceptionD', _nop), ('_ZNSt16invalid_argumentC', _nop), ('_ZNSt16invalid_argumentD', _nop),
+    ('_ZNSt12out_of_rangeC', _nop), ('_ZNSt12out_of_rangeD', _nop),
+    ('_ZNSt12domain_errorC', _nop), ('_ZNSt12domain_errorD', _nop),
+    ('_ZNSt12length_errorC', _nop), ('_ZNSt12length_errorD', _nop),
+]
